@@ -504,6 +504,11 @@ class SB:
                 return r.choice(pool)
             target = 5
         if target is None:
+            # words that are ordinary identifiers in C and Go and only SOFT keywords in Python (valid attribute names): the key is
+            # the schema's field name like any other
+            soft = [n for n in ("match", "type") if n not in taken]
+            if soft and r.random() < 0.08:
+                return r.choice(soft)
             return f"{r.choice(WORDS)}_{sfx}"
         parts: List[str] = []
         while len("_".join(parts + [sfx])) < target:
